@@ -113,7 +113,7 @@ func (g *FnGen) doCall(ci ssa.CallInstruction, v ssa.Value) {
 			}
 		}
 	}
-	if g.parent == nil && g.C != nil && g.C.Forbids[name] {
+	if g.parent == nil && g.C != nil && g.C.Forbids[name] && !wrapsAnError(c) {
 		g.oblige("assert", site+"/forbidden-call", guard, "false", "the contract forbids a (reachable) call of "+name+" in this function", ci.Pos())
 	}
 	ct := g.S.Contracts[name]
@@ -1463,4 +1463,58 @@ func (g *FnGen) checkInterfaceConformance() {
 			}
 		}
 	}
+}
+
+// wrapsAnError: the call passes an error value along (fmt.Errorf("...: %w", err)): that is passing a
+// failure on with more text, not making an error of the function's own, so "forbids" lets it be.
+func wrapsAnError(c *ssa.CallCommon) bool {
+	errT := types.Universe.Lookup("error").Type().Underlying().(*types.Interface)
+	isErr := func(t types.Type) bool {
+		if t == nil {
+			return false
+		}
+		if types.TypeString(t, nil) == "error" {
+			return true
+		}
+		return types.Implements(t, errT) || types.Implements(types.NewPointer(t), errT)
+	}
+	var elems func(v ssa.Value, depth int) bool
+	elems = func(v ssa.Value, depth int) bool {
+		if depth > 4 {
+			return false
+		}
+		switch x := v.(type) {
+		case *ssa.MakeInterface:
+			return isErr(x.X.Type())
+		case *ssa.ChangeInterface:
+			return isErr(x.X.Type())
+		case *ssa.Slice:
+			return elems(x.X, depth+1)
+		case *ssa.Alloc:
+			// variadic backing array: look at what is stored into its elements
+			for _, ref := range *x.Referrers() {
+				ia, ok := ref.(*ssa.IndexAddr)
+				if !ok {
+					continue
+				}
+				for _, r2 := range *ia.Referrers() {
+					if st, ok := r2.(*ssa.Store); ok && elems(st.Val, depth+1) {
+						return true
+					}
+				}
+			}
+		}
+		return isErr(v.Type()) && !isNilConst(v)
+	}
+	for _, a := range c.Args {
+		if elems(a, 0) {
+			return true
+		}
+	}
+	return false
+}
+
+func isNilConst(v ssa.Value) bool {
+	k, ok := v.(*ssa.Const)
+	return ok && k.Value == nil
 }
